@@ -10,6 +10,9 @@
 #endif
 /* alloc_plain: a fresh zeroed object of exactly the requested size */
 sexp sexp_alloc_tagged_aux(sexp ctx, size_t size, sexp_uint_t tag) {
+#ifdef VERIF_GC
+  bn_collect(ctx);            /* a collection at EVERY allocation: the strongest schedule */
+#endif
   sexp r = (sexp) bn_alloc(size);
   r->tag = tag;
   return r;
